@@ -99,6 +99,16 @@ def main():
         h.record(('accuracy', tgt), True, sample={'distinct': tgt, 'estimate': est})
         if abs(est - tgt) > 0.02 * tgt:
             h.fail('within_2pct', {'distinct': tgt, 'family': 'v<i>, one-more, w<i> with interleaved duplicates'}, f'estimate {est}')
+    # other input families beyond the warm-up: zero-padded ids, hexadecimal counters, strided ids (values that LOOK like digests)
+    for fam_name, fmt in (('%08d', lambda i_: '%08d' % i_), ('%08x', lambda i_: '%08x' % i_), ('%08x stride 2^19', lambda i_: '%08x' % ((i_ * 524288) % 4294967291))):
+        skx = HLL(0.02)
+        n_x = W + (40000 if quick else 300000)
+        for i_ in range(n_x):
+            skx.add(fmt(i_))
+        estx = len(skx)
+        h.record(('accuracy-family', fam_name), True, sample={'family': fam_name, 'distinct': n_x, 'estimate': estx})
+        if abs(estx - n_x) > 0.02 * n_x:
+            h.fail('within_2pct', {'distinct': n_x, 'family': fam_name}, f'estimate {estx}')
     h.bounded_note('|len - distinct| <= 2% on a seeded string family crossing the boundary, with interleaved duplicates',
                    f'up to {targets[-1]} distinct values', len(targets))
     return h.finish()
